@@ -131,6 +131,9 @@ MAIN_WITH_IMP = "Ri: !record\n  fields:\n    q%s: Imp.Zi\nP: !protocol\n  sequen
 FROZEN = {}
 
 
+CONFIG = {}      # scenario name -> extra command-line arguments of the watch session (and of the one-shot reference run)
+
+
 def scenarios(quick):
     """name -> (initial files, edits[(files, events)], uses_import)"""
     S = {}
@@ -166,6 +169,9 @@ def scenarios(quick):
     # model files are collected from the package directory recursively
     EX = "Ex: !record\n  fields:\n    %s: int\n"
     S["model-file-in-subdirectory-edited"] = (dict(plain, **{"main/sub/extra.yml": EX % "x"}), [({"main/sub/extra.yml": EX % "y"}, 1)])
+    # command-line overrides apply to every regeneration of the session, not only to the first
+    CONFIG["override-output-directories"] = ["-c", "json.outputDir=../out/json-override", "-c", "python.generateNDJson=false"]
+    S["override-output-directories"] = (plain, [({"main/model.yml": "Broken: [unclosed\n"}, 1), ({"main/model.yml": model(3, "k")}, 1)])
     if not quick:
         S["three-edits"] = (plain, [({"main/model.yml": model(4, "b")}, 1), ({"main/model.yml": model(1, "c")}, 1), ({"main/model.yml": model(3, "d")}, 1)])
         S["import-three-edits"] = (withimp, [({"imp/model.yml": IMP_MODEL % "b"}, 1), ({"main/model.yml": MAIN_WITH_IMP % "b"}, 1), ({"imp/model.yml": IMP_MODEL % "c"}, 1)])
@@ -196,7 +202,8 @@ class Scenario:
         ref = os.path.join(self.base, "ref")
         shutil.rmtree(ref, ignore_errors=True)
         build.write_tree(ref, final)
-        rc, out, err = build.yardl(["generate"], cwd=os.path.join(ref, "main"))
+        self.config = CONFIG.get(name.split("+")[0], [])
+        rc, out, err = build.yardl(["generate"] + self.config, cwd=os.path.join(ref, "main"))
         if rc != 0:
             raise build.HarnessError("C20 scenario %s: final contents do not generate: %s" % (name, err[-300:]))
         self.expected = tree_hash(os.path.join(ref, "out"))
@@ -218,7 +225,7 @@ class Scenario:
         wd = os.path.join(self.base, "x%d" % slot)
         shutil.rmtree(wd, ignore_errors=True)
         build.write_tree(wd, self.initial)
-        sc = {"dir": os.path.join(wd, "main"), "config": [],
+        sc = {"dir": os.path.join(wd, "main"), "config": list(self.config),
               "edits": [{"files": {os.path.join(wd, k): v for k, v in e[0].items()}, "events": e[1],
                          "rmdirs": [os.path.join(wd, d) for d in (e[2] if len(e) > 2 else [])], "quiescent": bool(e[3]) if len(e) > 3 else False} for e in self.edits]}
         scp = os.path.join(wd, "scenario.json")
@@ -274,6 +281,11 @@ def explore(chk, sc, bound, max_exec, pool):
             seen += 1
             res = r["res"]
             chk.count()
+            if res is not None and res.get("unwatched_at_start"):
+                chk.fail("stale-output/package-directory-not-watched-during-initial-generation/%s" % sc.name,
+                         "scenario %s: the package directory is not watched while the initial generation is in flight (it is still at its first step and the watch "
+                         "does not appear): a save made then raises no event and the output stays at the old contents" % sc.name, {"scenario": sc.name, "choices": prefix})
+                continue
             if res is not None and res.get("hang"):
                 raise build.HarnessError("C20: execution %s of %s did not reach a decision within 120 s: a regeneration blocks on something the scheduler does not control "
                                          "(only sync.Mutex in generatecommand.go is mapped); adapt goharness/watch/verifsched" % (prefix, sc.name))
